@@ -65,6 +65,14 @@ m('benign-scan-blank-first', 'stack/context.go', "\tcase gotFileCreated:\n\t\tif
 m('benign-similar-switch-order', 'stack/stack.go', "\t\tif a.IsOffsetTooLarge != r.IsOffsetTooLarge {\n\t\t\treturn false\n\t\t}\n\t\tif a.IsPtr != r.IsPtr {\n\t\t\treturn false\n\t\t}\n\t\treturn a.IsPtr || a.Value == r.Value", "\t\tif a.IsPtr != r.IsPtr {\n\t\t\treturn false\n\t\t}\n\t\tif a.IsOffsetTooLarge != r.IsOffsetTooLarge {\n\t\t\treturn false\n\t\t}\n\t\treturn r.IsPtr || r.Value == a.Value", 'C05 C06', '', kind='benign', note='tests reordered and operands swapped')
 m('benign-readslice-var', 'stack/reader.go', "\t\t\tline := r.buf[r.r : r.r+i+1]\n\t\t\tr.r += i + 1\n\t\t\treturn line, nil", "\t\t\tend := r.r + i + 1\n\t\t\tline := r.buf[r.r:end]\n\t\t\tr.r = end\n\t\t\treturn line, nil", 'C09 C02', '', kind='benign', note='same cursor arithmetic through a local')
 
+# --- RB (relational bounds of the reader)
+m('rb-advance-plus2', 'stack/reader.go', "\t\t\tr.r += i + 1\n", "\t\t\tr.r += i + 2\n", 'C09', 'RB-slice', note='read cursor can pass the write cursor')
+m('rb-s-is-w', 'stack/reader.go', "\t\ts = r.w - r.r\n", "\t\ts = r.w\n", 'C09', 'RB-slice', note='search offset not relative to the read cursor: r+s can pass w after a slide')
+m('rb-w-assign', 'stack/reader.go', "\t\tr.w += n\n", "\t\tr.w = n\n", 'C09', 'RB-*')
+m('rb-slide-no-w', 'stack/reader.go', "\t\tr.w -= r.r\n", "", 'C03', 'RB-*', note='write cursor not moved back with the data')
+m('benign-fill-noguard', 'stack/reader.go', "\tif r.r > 0 {\n\t\tcopy(r.buf[:], r.buf[r.r:r.w])\n\t\tr.w -= r.r\n\t\tr.r = 0\n\t}\n", "\tcopy(r.buf[:], r.buf[r.r:r.w])\n\tr.w -= r.r\n\tr.r = 0\n", 'C09 C03 C11', '', kind='benign', note='unconditional slide: a no-op when r is 0')
+m('benign-bufferfull-ge', 'stack/reader.go', "\t\tif r.w-r.r == len(r.buf) {\n", "\t\tif r.w-r.r >= len(r.buf) {\n", 'C09 C03', '', kind='benign', note='same test, the difference cannot exceed the buffer')
+
 out = '/verif/mutants'
 only = sys.argv[1:]
 for mm in M:
